@@ -59,13 +59,14 @@ type Obs struct {
 }
 
 type Config struct {
-	ForceWAL  bool // switch to WAL mode at the first opportunity
-	Retention bool // generate retention sweeps and stray temporary files
-	PageSize  int
-	Regime    int // 0 tiny, 1 around 256, 2 around 512, 3 lock page (64K pages)
-	AllowWAL  bool
-	AllowDrop bool
-	BigEndian bool
+	BackToRollback bool // generate WAL -> rollback journal mode switches (PRAGMA journal_mode=DELETE)
+	ForceWAL       bool // switch to WAL mode at the first opportunity
+	Retention      bool // generate retention sweeps and stray temporary files
+	PageSize       int
+	Regime         int // 0 tiny, 1 around 256, 2 around 512, 3 lock page (64K pages)
+	AllowWAL       bool
+	AllowDrop      bool
+	BigEndian      bool
 }
 
 type Runner struct {
@@ -89,6 +90,9 @@ type Runner struct {
 	Store      *litefs.Store // the store the history runs on
 	ExitsFn    func() []int
 	External   bool // the store is owned by the caller (no reopen)
+	InitTXID   uint64
+	InitChk    uint64
+	InitImage  *lfs.Image
 }
 
 func New(c *common.Ctx, r *common.Rand, cfg Config) (*Runner, error) {
@@ -112,6 +116,11 @@ func NewOn(c *common.Ctx, r *common.Rand, cfg Config, store *litefs.Store, exits
 		h.Ref = &lfs.Image{PageSize: cfg.PageSize}
 	}
 	h.DB = store.DB(name)
+	if h.DB != nil {
+		p := h.DB.Pos()
+		h.InitTXID, h.InitChk = uint64(p.TXID), uint64(p.PostApplyChecksum)
+	}
+	h.InitImage = h.Ref.Clone()
 	h.owner++
 	h.newPager()
 	return h
@@ -220,6 +229,8 @@ func (h *Runner) genStep() Step {
 	}
 	if h.WALMode {
 		switch {
+		case x < 16 && h.Cfg.BackToRollback:
+			return Step{Op: "torollback", NewSize: cur}
 		case x < 22:
 			return Step{Op: "appckpt", CkptMode: r.Intn(4)}
 		case x < 28:
@@ -423,6 +434,30 @@ func (h *Runner) Exec(st Step) Obs {
 			h.Ref = lfs.ApplyTx(h.Ref, tx, ps)
 			h.RefPos++
 			ob.Captured = true
+		case "torollback":
+			// PRAGMA journal_mode=DELETE in WAL mode: a WAL transaction rewrites page 1 with version 1,
+			// the WAL is checkpointed completely and the -wal / -shm files are deleted
+			if err = h.Pager.BeginWALWrite(); err != nil {
+				return
+			}
+			d := append([]byte(nil), h.Ref.Pages[0]...)
+			lfs.SetHeader(d, ps, uint32(len(h.Ref.Pages)), false)
+			tx := lfs.Tx{Writes: map[uint32][]byte{1: d}, NewSize: uint32(len(h.Ref.Pages)), Wal: false}
+			if err = h.Pager.WriteWALFrames([]lfs.WALFrameSpec{{Pgno: 1, Data: d}}, uint32(len(h.Ref.Pages)), false); err != nil {
+				h.Pager.EndWALWrite()
+				return
+			}
+			h.Pager.EndWALWrite()
+			h.Ref = lfs.ApplyTx(h.Ref, tx, ps)
+			h.RefPos++
+			ob.Captured = true
+			if err = h.appCheckpoint(3); err != nil {
+				return
+			}
+			h.Rec.Ops = append(h.Rec.Ops, "OWalTruncate")
+			_ = h.DB.RemoveWAL(context.Background())
+			_ = h.DB.RemoveSHM(context.Background())
+			h.WALMode = false
 		case "appckpt":
 			err = h.appCheckpoint(st.CkptMode)
 		case "lfsckpt":
